@@ -1425,6 +1425,22 @@ package leveldb
 //@   ensures [C20:value-is-the-level-0-candidate] (sameslice(value, old(value)) || sameslice(value, old(zval))) && sameslice(zval, old(zval))
 
 // ---------------------------------------------------------------------------
+// C19: rebuilding a damaged table (callback 1 of recoverTable): the replacement is complete (table closed: index and
+// footer written) and, unless syncing is off, synced before it is reported as built; a failed rebuild removes its
+// temporary file.
+//@ ghost var gCreated bool
+//@ func recoverTable$1
+//@   props C19
+//@   safety off
+//@   at before call storage.Syncer.Sync#1
+//@     assert [C19:rebuilt-table-is-complete-before-it-is-synced] calls("(*Writer).Close") == old(calls("(*Writer).Close")) + 1
+//@   ensures [C19:rebuilt-table-is-complete-and-synced] err == nil ==> (calls("(*Writer).Close") >= old(calls("(*Writer).Close")) + 1 && (!noSync ==> calls("storage.Syncer.Sync") >= old(calls("storage.Syncer.Sync")) + 1))
+//@   at entry
+//@     ghost gCreated = false
+//@   at after stmt writer, err := s.stor.Create(tmpFd)
+//@     ghost gCreated = (err == nil)
+//@   ensures [C19:failed-rebuild-removes-its-temporary-file] (err != nil && gCreated) ==> calls("storage.Storage.Remove") >= old(calls("storage.Storage.Remove")) + 1
+
 // C19: Recover rebuilds the table list by scanning every table file (callback 3 of recoverTable, verified as a
 // unit). Per table: the sequence number it reports is not below any valid entry's (together with gLow: it never
 // goes down during the scan), the recorded bounds exist when there is a valid entry, a table with damage is
